@@ -81,6 +81,13 @@ META = {
                                   "two-layer network",
             "3D": "3x2x2 (and permutations): contract_boundary mode 'peps' from 3 sides, CTMRG; bond cap chi=3 for peps / projector3d",
             "periodic": "4x3 / 3x4 periodic in y, in x, in both: mps / projector2d / hotrg exactness, projector2d cap incl. the ring bond",
+            "around (every target)": "contract_boundary / contract_ctmrg(around=...) on 2x1x3 / 1x2x3 / 3x1x2 / 2x3 / 3x2: EVERY single target site and "
+                                     "every second neighbour pair, default / reversed sequence, default driver and max_separation=0 / max_unfinished=0: "
+                                     "target sites handed over untouched (symbolic, structural), environment + any tensor on the target == whole "
+                                     "(numeric-only)",
+            "rank-deficient bonds": "numeric-only: every bond inflated to size 3 of rank 2 (A M, pinv(M) B), mode x canonize in (False, True) x side, "
+                                    "two plane steps (max_separation=0), 3x2x2 (and permutations) / 3x3: peps, projector3d, projector; mps, full-bond, "
+                                    "projector2d",
         },
         "thorough": {
             "adds": "3x3 with every bond 2 in every direction and mode, 4x4 with four sides, every listed option x side x pattern cell, "
@@ -88,7 +95,8 @@ META = {
                     "scheme incl. 1D / arbitrary-geometry compressors as 2D modes, every (first_contract, second_dense, bsz) plaquette "
                     "cell on 3x3, chord4 / full4 / tree5 / ring4open graphs with the whole contract_compressed option grid, "
                     "contract_around option grid, every compress_between / ag-compress option, all six 3D sides x every 3D mode, "
-                    "3D HOTRG, every periodic cell",
+                    "3D HOTRG, every periodic cell, around=every target on 2x2x3 ... 3x3x4 / 4x4 with five sequence orders and every 2D / 3D mode, "
+                    "the rank-deficient-bond grid for every mode x canonize x side (and the default sequence) incl. 4x2x2 / 3x3x3 / 4x4",
         },
     },
     "outside": [
@@ -103,6 +111,11 @@ META = {
         "that form outer products: numeric cross-run only",
         "the periodic bond of a boundary line under the open-chain cores 'mps' / 'direct' (their compression sweep never visits it: it keeps "
         "its full size; exactness is still checked)",
+        "rank-deficient (inflated) bonds under the belief-propagation modes 'l2bp' / 'l2bp3d' and under mode='projector' with canonize=True "
+        "(gauging to a tolerance): on the unchanged library the second plane step is off by ~10% even untruncated (approximate environments); "
+        "likewise 2D mode='dm' on rank-deficient bonds with two boundary steps and 3D 'superorthogonal' canonize=True on 4x2x2 / 3x3x3 "
+        "(both fail on the unchanged library: reported, not in the grid); "
+        "2D contract_ctmrg has no max_unfinished argument (only its default driver is run with around=...)",
         "contract_ctmrg(mode='projector2d') (rejected with TypeError), full-bond mode on lattices periodic along the line (ValueError)",
         "hyper-indexed networks (contract_compressed documents that they are not supported); optimizers that search for a tree (only "
         "explicit paths are given); progbar / rehearse options",
@@ -2118,3 +2131,189 @@ def schemes3d_cap(mk, scheme, axis, odd, chi):
             # one step, then at most max_unfinished=1 axis is still further apart than max_separation: stop
             mk.same("one plane has been absorbed", res.num_tensors, 4 * (max(shape) - 1))
     cap_goal(mk, f"3D {scheme} along {axis} (max_bond={chi}, cutoff=0.0)", res, max(chi, 2))
+
+
+# ---------------------------------------------------------------------- contract_boundary(around=...): every target site, 2D and 3D
+
+_AR_OPTS = {
+    2: {"mps": dict(mode="mps"), "mps-nocanon": dict(mode="mps", canonize=False), "full-bond": dict(mode="full-bond"),
+        "projector2d": dict(mode="projector2d"), "ctmrg": None},
+    3: {"peps": dict(mode="peps"), "peps-nocanon": dict(mode="peps", canonize=False), "projector3d": dict(mode="projector3d"),
+        "projector3d-canon": dict(mode="projector3d", canonize=True), "ctmrg": None},
+}
+_AR_DRIVERS = {
+    "default": {},                                                  # max_separation=1, max_unfinished=1
+    "reach-target": dict(max_separation=0, max_unfinished=0),       # every side goes on until it stands next to the target
+}
+
+
+def _ar_seqs(nd):
+    sides = [a + m for a in "xyz"[:nd] for m in ("min", "max")]
+    return {"default": None, "reversed": tuple(reversed(sides)), "max-first": tuple(s for s in sides if s.endswith("max")) + tuple(s for s in sides if s.endswith("min")),
+            "last-axis-only": (sides[-2], sides[-1]), "first-axis-only": (sides[0], sides[1])}
+
+
+def _ar_params():
+    out = []
+    quick_shapes = ((2, 1, 3), (1, 2, 3), (3, 1, 2), (2, 3), (3, 2))
+    more_shapes = ((2, 2, 3), (3, 2, 1), (2, 1, 4), (2, 2, 4), (3, 3, 4), (4, 3, 3), (3, 4, 3), (3, 4), (4, 3), (4, 4))
+    for shape in quick_shapes + more_shapes:
+        nd = len(shape)
+        for opt in _AR_OPTS[nd]:
+            for seq in _ar_seqs(nd):
+                for drv in _AR_DRIVERS:
+                    if max(shape) > 3 and np.prod(shape) > 16 and (opt not in ("peps", "mps", "projector3d") or seq not in ("default", "reversed")):
+                        continue
+                    if nd == 2 and opt == "ctmrg" and drv != "default":
+                        continue        # 2D contract_ctmrg has no max_unfinished argument
+                    q = shape in quick_shapes and ((opt in ("peps", "mps") and seq in ("default", "reversed"))
+                                                   or (opt in ("projector3d", "projector2d", "ctmrg") and seq == "default" and drv == ("reach-target" if nd == 3 else "default")))
+                    out.append({"shape": shape, "opt": opt, "seq": seq, "drv": drv, "_tiers": _Q if q else _T})
+    return out
+
+
+def _ar_targets(shape):
+    sites = list(itertools.product(*(range(n) for n in shape)))
+    pairs = []
+    for a in sites:
+        for ax in range(len(shape)):
+            b = list(a)
+            b[ax] += 1
+            if b[ax] < shape[ax]:
+                pairs.append((a, tuple(b)))
+    return [(s,) for s in sites] + pairs[::2]
+
+
+@obligation(PROP, params=_ar_params(), wall_s=500, timeout_s=600, max_paths=64, exc_is_violation=True)
+def around_every_target(mk, shape, opt, seq, drv):
+    """contract_boundary / contract_ctmrg(around=target) in 2D and 3D on small lattices with unequal sides, for EVERY single
+    target site and every second nearest-neighbour pair, several `sequence` orders and both drivers settings (the default
+    max_separation / max_unfinished and 'go on until every side stands next to the target'), cap >= every merged bond, cutoff 0:
+    the target sites are handed over as lone tensors with their original tags, labels, shape and entries; with the second driver
+    exactly the target box and one line / plane on each side of it are left; [numeric-only] the network handed over denotes the
+    exact value, and with any other tensor X on a target site it denotes the value of the whole lattice with X on that site
+    (environment + excluded site == whole).  Symbolic runs (structure goals): stubs without contracts, every bond 2"""
+    nd = len(shape)
+    core = c3 if nd == 3 else c2
+    cls = core.TensorNetwork3D if nd == 3 else core.TensorNetwork2D
+    mk.encodes(cls.contract_boundary, cls._contract_interleaved_boundary_sequence, cls.contract_ctmrg)
+    if mk.sym:
+        mk.note("numeric-only: the value goals of this cell (projector / multi-side sweeps have no product-cut instance); "
+                "the structure goals are decided symbolically")
+    make = (lambda: lattice3d(mk, *shape, pattern="all", kind="real", numkind="cplx")) if nd == 3 else \
+        (lambda: lattice2d(mk, *shape, "all", kind="real", numkind="cplx"))
+    tn = make()
+    want = None if mk.sym else exact(tn)
+    kw = dict(_AR_DRIVERS[drv])
+    s = _ar_seqs(nd)[seq]
+    if s is not None:
+        kw["sequence"] = s
+    for around in _ar_targets(shape):
+        lab = f"{nd}D {shape} {opt}(around={around}, sequence={seq}, {drv})"
+        fn = tn.contract_ctmrg if opt == "ctmrg" else tn.contract_boundary
+        okw = _AR_OPTS[nd][opt] or {}
+        if mk.sym:
+            with shapes_only():
+                res = fn(max_bond=4096, cutoff=0.0, around=around, **okw, **kw)
+        else:
+            res = fn(max_bond=4096, cutoff=0.0, around=around, **okw, **kw)
+        mk.same(f"{lab}: a network is handed over", isinstance(res, qtn.TensorNetwork), True)
+        lo = [min(a[ax] for a in around) for ax in range(nd)]
+        hi = [max(a[ax] for a in around) for ax in range(nd)]
+        box = list(itertools.product(*(range(lo[ax], hi[ax] + 1) for ax in range(nd))))
+        intact = True
+        for site in box:
+            tag = tn.site_tag(*site)
+            t0 = tn[tag]
+            tids = res.tag_map.get(tag, ())
+            ok = len(tids) == 1
+            if ok:
+                t1 = res.tensor_map[next(iter(tids))]
+                ok = (set(t1.tags) == set(t0.tags)) and (set(t1.inds) == set(t0.inds)) and \
+                    all(t1.ind_size(ix) == t0.ind_size(ix) for ix in t0.inds)
+            mk.same(f"{lab}: site {site} is handed over as a lone tensor with its original tags, labels and shape", ok, True)
+            intact &= bool(ok)
+        if drv == "reach-target":
+            n_left = int(np.prod([min(hi[ax] + 1, shape[ax] - 1) - max(lo[ax] - 1, 0) + 1 for ax in range(nd)]))
+            full = s is None or len(s) == 2 * nd
+            if full:
+                mk.same(f"{lab}: tensors left = the target box and one line / plane on each side", res.num_tensors, n_left)
+        if mk.sym or not intact:
+            continue
+        mk.eq(f"[numeric-only] {lab}: the network handed over denotes the exact value", exact(res) / want, 1.0)
+        # environment + any tensor on the excluded sites == the whole lattice with that tensor on the sites
+        tn_x, res_x = tn.copy(), res.copy()
+        for site in around:
+            tag = tn.site_tag(*site)
+            t0 = tn_x[tag]
+            X = np.asarray(mk.array("X" + "".join(map(str, around[0])) + "".join(map(str, site)) + f"n{len(around)}", t0.shape, "cplx"))
+            t0.modify(data=X)
+            t1 = res_x[tag]
+            t1.modify(data=np.transpose(X, [t0.inds.index(ix) for ix in t1.inds]))
+        mk.eq(f"[numeric-only] {lab}: environment + other tensors X on the target sites == whole lattice with X on the sites",
+              exact(res_x) / exact(tn_x), 1.0)
+
+
+# ---------------------------------------------------------------------- rank-deficient (inflated) bonds: mode x canonize grid
+
+def _inflate_bonds(mk, tn):
+    """every inner bond (size 2) becomes a size-3 bond of rank 2: A -> A M, B -> N B with M generic (2 x 3) and N = pinv(M),
+    M N = 1: the value of the network is unchanged, every bond has a generic null space"""
+    for ix in sorted(tn.inner_inds()):
+        ta, tb = tn._inds_get(ix)
+        M = np.asarray(mk.array("M" + ix, (2, 3), "cplx"))
+        N = np.linalg.pinv(M)
+        pa, pb = ta.inds.index(ix), tb.inds.index(ix)
+        ta.modify(data=np.moveaxis(np.tensordot(ta.data, M, [(pa,), (0,)]), -1, pa))
+        tb.modify(data=np.moveaxis(np.tensordot(tb.data, N, [(pb,), (1,)]), -1, pb))
+    return tn
+
+
+_RD_MODES = {
+    2: ("mps", "full-bond", "direct", "zipup", "dm", "fit", "projector", "projector2d", "local-early", "local-late", "superorthogonal"),
+    3: ("peps", "projector3d", "local-early", "local-late", "projector", "superorthogonal"),
+}   # not 'l2bp' / 'l2bp3d': belief-propagation messages approximate the environment; on rank-deficient bonds their projectors are
+    # not exact even untruncated (second plane step off by ~10% on the unchanged library): outside the claim, see META
+
+
+def _rd_params():
+    out = []
+    for nd in (3, 2):
+        for big in (False, True):
+            for mode in _RD_MODES[nd]:
+                for canonize in (False, True):
+                    if (mode == "projector" and canonize) or mode == "dm" or (mode == "superorthogonal" and big and canonize):
+                        continue        # gauging to a numerical tolerance before the projectors: not exact on rank-deficient bonds (META)
+                    for side in (_DIRS3 if nd == 3 else _DIRS) + ("default",):
+                        q = (not big) and ((nd == 3 and mode in ("peps", "projector3d", "projector") and side in ("xmin", "ymax", "zmin"))
+                                           or (nd == 2 and mode in ("mps", "projector2d", "full-bond") and side in ("xmin", "ymax")))
+                        out.append({"nd": nd, "big": big, "mode": mode, "canonize": canonize, "side": side, "_tiers": _Q if q else _T})
+    return out
+
+
+@obligation(PROP, params=_rd_params(), numeric=True, wall_s=500, timeout_s=600, exc_is_violation=True)
+def rank_deficient_bonds_exact(mk, nd, big, mode, canonize, side):
+    """[numeric-only] every mode the 2D / 3D boundary cores accept x canonize in (False, True) x every side (and the default
+    sequence) on a lattice whose every bond is a size-3 bond of rank 2 (A -> A M, B -> pinv(M) B): with max_bond >= every merged
+    bond and cutoff 0 the value is exact (projectors / gauges have to be computed in the basis they are inserted in; for full
+    rank bonds an untruncated projector pair is the identity in any basis and hides this)"""
+    cls = c3.TensorNetwork3D if nd == 3 else c2.TensorNetwork2D
+    mk.encodes(cls.contract_boundary, cls.contract_boundary_from, cls._contract_boundary_projector)
+    if mk.sym:
+        return _numeric_only(mk, "projector-type / iterative schemes on bonds > 1; pseudo-inverse construction of the instance")
+    if nd == 3:
+        shape = tuple((3 if not big else 4) if (side == "default" or c == side[0]) and (big or side != "default" or c == "x") else 2 for c in "xyz")
+        if big and side == "default":
+            shape = (3, 3, 3)
+        tn = lattice3d(mk, *shape, pattern="all", kind="cplx")
+    else:
+        shape = (3, 3) if not big else (4, 4)
+        tn = lattice2d(mk, *shape, "all", kind="cplx")
+    want = exact(tn)
+    _inflate_bonds(mk, tn)
+    mk.eq("[numeric-only] inflating the bonds leaves the value alone", exact(tn) / want, 1.0)
+    kw = dict(sequence=(side,), max_separation=0) if side != "default" else {}
+    res = tn.contract_boundary(max_bond=4096, cutoff=0.0, mode=mode, canonize=canonize, **kw)
+    mk.eq(f"[numeric-only] {nd}D {shape} rank-2 bonds of size 3: contract_boundary(mode={mode!r}, canonize={canonize}, "
+          f"{'sequence=(%s,), max_separation=0' % side if side != 'default' else 'default sequence'}, max_bond=4096, cutoff=0.0) == exact value",
+          value(res) / want, 1.0)
